@@ -1178,6 +1178,32 @@ def check_hooks(run, rule, f, cfg, select=None):
                    "%s calls %s %s" % (short, c["name"], "as an implementation of the hook %s" % e["hook"] if ok else
                                        "directly, bypassing the hook %s that %s override (%s)" % (e["hook"], ", ".join(sorted(overridden.get(e["hook"], []))) or "backends", e["reason"])),
                    sp=c.get("sp"), cfg=cfg)
+    # the trait default of a `*_common` hook is inherited by some backends and overridden by others: whatever it does beyond
+    # forwarding to the inner renderer is behaviour of the inheriting backends only (the overriding ones never reach it)
+    from . import paths as P
+    present = [b for b in L.BACKENDS.values() if b in f.adts]
+    for k, e in inner.items():
+        if not k.endswith("_common"):
+            continue
+        over = overridden.get(e["hook"], set())
+        if not over or len(over) >= len(present):
+            continue            # nobody overrides it / nobody inherits it
+        dname = [n_ for n_, fn_ in f.fns.items() if n_.endswith("::" + e["hook"]) and (fn_.get("owner") or {}).get("trait") and fn_.get("hir") is not None]
+        if len(dname) != 1:
+            continue
+        fn_ = f.fns[dname[0]]
+        ps = [p_ for p_ in P.fn_paths(fn_["hir"]) if p_.out != "diverge"]
+        pn = [p_["pat"].get("name") for p_ in fn_["params"]]
+        ok = len(ps) == 1 and not ps[0].conds and len(ps[0].calls()) == 1
+        if ok:
+            c = ps[0].calls()[0]
+            ok = c.get("k") == "mcall" and c["name"] == k and [H.place(c["recv"])] + [H.place(a) for a in c["args"]] == pn
+        run.ob(rule, "hook-default:%s" % e["hook"], ok,
+               "the trait default of %s (inherited by the backends that do not override it; overridden by %s) is a bare forward to %s: the backends "
+               "share one rendering of the construct%s" % (e["hook"], ", ".join(sorted(over)), k, "" if ok else
+                                                          " - NOT: it does something of its own, which the overriding backends never reach"),
+               sp=fn_["sp"], cfg=cfg)
+        n += 1
     for k, e in inner.items():
         if k not in seen:
             run.anchor(rule, "hook:" + k, "inner renderer %s of specs/hooks.json is not called anywhere" % k, cfg)
